@@ -328,7 +328,9 @@ func TestExhaustive(t *testing.T) {
 				}}
 			sc := &scenario{root: root, nSrc: 2, results: []R{failR(kit.Errs[0]), okR(3)}, phase: []int{0, 0}, nPhase: 1, desc: root.desc}
 			var fs, fm string
-			sc.run(func() func(n int, rs []*kit.Thread) int { return func(n int, rs []*kit.Thread) int { return d.Pick(n) } }, func(sig, msg string) { fs, fm = sig, msg })
+			sc.run(func() func(n int, rs []*kit.Thread) int {
+				return func(n int, rs []*kit.Thread) int { return d.Pick(n) }
+			}, func(sig, msg string) { fs, fm = sig, msg })
 			rec.Case(true, fmt.Sprint(d.Choices()))
 			if fs != "" {
 				rec.PlainFail(t, "C06|dfs.Map2|"+fs, "schedule %v: %s", d.Choices(), fm)
@@ -336,5 +338,95 @@ func TestExhaustive(t *testing.T) {
 		}
 		rec.Extra("exhaustive", d.Runs <= max)
 		rec.Extra("schedules", d.Runs)
+	})
+}
+
+// ---- fan-out: many combinators registering on ONE source from concurrent threads -------------------
+// (added after the sensitivity run: a lost callback registration on a shared promise only shows when
+// several registrations race on a promise that already has >= 3 callbacks)
+func TestFanOut(t *testing.T) {
+	kit.Check(t, "fanout/concurrent-builders", "one source promise with 0-6 callbacks already registered; 2-4 builder threads each derive Map/FlatMap/Recover futures from it concurrently, one completer thread; generated schedule; oracle: at quiescence every derived future is completed with f(source result) (reference over Try); non-trivial iff >= 3 callbacks were pre-registered and >= 2 builders raced; distinct by configuration+trace", kit.Opt{}, func(rt *rapid.T, rec *kit.Rec) {
+		nPre := rapid.IntRange(0, 6).Draw(rt, "nPre")
+		nB := rapid.IntRange(2, 4).Draw(rt, "builders")
+		fails := rapid.IntRange(0, 3).Draw(rt, "srcFails") == 0
+		kinds := make([]int, nB)
+		fns := make([]kit.IntFn, nB)
+		for i := range kinds {
+			kinds[i] = rapid.IntRange(0, 2).Draw(rt, "kind")
+			fns[i] = kit.IntFnGen().Draw(rt, "fn")
+		}
+		src := fp.NewPromise[int]()
+		preCalls := make([]int, nPre)
+		for i := 0; i < nPre; i++ {
+			i := i
+			src.Future().OnComplete(func(fp.Try[int]) { preCalls[i]++ }, inlineExec{})
+		}
+		derived := make([]fp.Future[int], nB)
+		built := make([]bool, nB)
+		s := kit.NewSched()
+		s.MaxSteps = 100000
+		for i := 0; i < nB; i++ {
+			i := i
+			s.Go(fmt.Sprintf("build%d", i), func() {
+				switch kinds[i] {
+				case 0:
+					derived[i] = src.Future().Map(fns[i].Call)
+				case 1:
+					derived[i] = src.Future().FlatMap(func(v int) fp.Future[int] {
+						p := fp.NewPromise[int]()
+						p.Success(fns[i].Call(v))
+						return p.Future()
+					})
+				default:
+					derived[i] = src.Future().Recover(func(error) int { return -7 })
+				}
+				built[i] = true
+			})
+		}
+		var result R
+		if fails {
+			result = failR(kit.Errs[0])
+		} else {
+			result = okR(rapid.IntRange(0, 6).Draw(rt, "srcVal"))
+		}
+		s.Go("complete", func() { complete(src, result) })
+		res := s.Run(kit.UniformPick(rt))
+		trace := strings.Join(s.Trace, " ")
+		if len(trace) > 1200 {
+			trace = trace[:1200] + "…"
+		}
+		rec.Case(nPre >= 3, fmt.Sprintf("pre=%d builders=%v fns=%v src=%v | %s", nPre, kinds, fns, result, trace))
+		if res.Panic != nil {
+			rec.Failf(rt, "C06|fanout|panic", "thread %s panicked: %v\n%s", res.PanicIn, res.Panic, res.PanicInfo)
+		}
+		if res.Overrun {
+			rec.Failf(rt, "C06|fanout|livelock", "no quiescence; trace: %s", trace)
+		}
+		for i := 0; i < nPre; i++ {
+			if preCalls[i] != 1 {
+				rec.Failf(rt, "C06|fanout|callback-count", "pre-registered callback %d ran %d times; trace: %s", i, preCalls[i], trace)
+			}
+		}
+		for i := 0; i < nB; i++ {
+			var want R
+			switch kinds[i] {
+			case 0, 1:
+				want = bind(result, func(v int) R { return okR(fns[i].Call(v)) })
+			default:
+				want = result
+				if !result.Ok {
+					want = okR(-7)
+				}
+			}
+			if !built[i] {
+				rec.Failf(rt, "C06|fanout|builder-not-finished", "builder %d did not finish", i)
+			}
+			if !derived[i].IsCompleted() {
+				rec.Failf(rt, "C06|fanout|never-completes", "derived future %d (kind %d) is not completed at quiescence although its source is (%v); %d callbacks were registered before the race; trace: %s", i, kinds[i], result, nPre, trace)
+			}
+			if got := fromTry(derived[i].Value()); !same(got, want) {
+				rec.Failf(rt, "C06|fanout|wrong-value", "derived future %d = %v, want %v", i, got, want)
+			}
+		}
 	})
 }
